@@ -170,9 +170,17 @@ static Out run_on(const Req &r, Device &D) {
         Tensor x = F::zeros<Tensor>(r.shape, D);
         ini->apply(x);
         o = of_tensor(x);
-      } else {
+      } else if (r.shape.size() % 2 == 0) {
         Parameter p(r.shape, *ini, D);
         o = of_tensor(p.value());
+      } else {
+        // the other way to the same state: a parameter that already lives on ANOTHER device (same shape) is
+        // re-initialised onto D — the values are drawn from D's generator and live on D
+        static devices::Naive scratch;
+        Parameter p(r.shape, initializers::Constant(0), scratch);
+        p.init(r.shape, *ini, D);
+        if (&p.device() != &D || &p.value().device() != &D || &p.gradient().device() != &D) o.err = "err-wrong-device";
+        else o = of_tensor(p.value());
       }
     } catch (const Error &) { o.err = "err"; }
     return o;
